@@ -3,9 +3,9 @@
   endpoint.go, config.go, token_request.go (Exchange), server_http.go (tokensHandler / createRouter) and
   pkg/client/client.go (Discover) compute over.  Getter names = Go getter names.
 
-  The hand-written part of the model lives at the end of this file (`namespace Disco`): the issuer
-  strategies (closures in Go), the view of a `*Provider` through the `Configuration` interface is
-  generated (`Gen.Provider_asConfiguration`).
+  `namespace Disco` at the end of this file names the issuer strategies (which `op.…Issuer…` constructor the integrator
+  used); what they compute is regenerated (Generated/DiscoveryServe.lean, types in Model/DiscoveryServe.lean). The view of a
+  `*Provider` through the `Configuration` interface is generated (`Gen.Provider_asConfiguration`).
 -/
 import OidcModel.Model.OP
 
@@ -165,7 +165,7 @@ namespace Disco
 inductive Router | provider | legacy
   deriving DecidableEq, Repr, Inhabited
 
-/-- how the provider establishes the issuer of a request (closures in Go; hand-modelled) -/
+/-- how the provider establishes the issuer of a request: which constructor the integrator handed to `op.NewProvider` -/
 inductive IssuerStrategy
   | static (issuer : String)
   | fromHost (path : String)
